@@ -308,7 +308,7 @@ Proof.
   destruct (new_obj_ok w pid y I N) as (i & Ow & O & Ep & _).
   pose proof (Forall2_len _ _ _ (inv_objs _ I)) as Len.
   unfold has_obj, g_inc, obj_pid. cbn [ms ginc with_objs objs].
-  rewrite skipn_app_exact. cbn [map]. rewrite nth_error_app2 by lia. rewrite Nat.sub_diag. cbn [nth_error].
+  rewrite skipn_app_exact. cbn [new_ghosts map]. rewrite nth_error_app2 by lia. rewrite Nat.sub_diag. cbn [nth_error].
   rewrite Len, app_nth2 by lia. rewrite Nat.sub_diag. cbn [nth]. unfold ghost_of. rewrite Ep, Ow. auto.
 Qed.
 
@@ -579,7 +579,7 @@ Lemma step_meets_spec h c : wf_hist h = true ->
   end.
 Proof.
   intros W. pose proof (run_inv h W) as I.
-  destruct c as [pid|pid|o|o s|o|o|o|o|o|a b|a b|o s|o|o| | |o vis| |g|o vis]; cbn [spec_call]; auto.
+  destruct c as [pid|pid|o|o s|o|o|o|o|o|a b|a b|o s|o|o| | |o vis| |g|o vis|o hw ok|o ok]; cbn [spec_call]; auto.
   - (* New *)
     rewrite nonset_effects by (intros; discriminate). left. f_equal.
     rewrite outcome_call. cbn [mcall]. unfold new_obj.
@@ -844,10 +844,10 @@ Proof.
   splits; auto.
   - unfold has_obj. cbn [ms with_objs objs]. rewrite nth_error_app2, Nat.sub_diag by lia. reflexivity.
   - unfold obj_pid. cbn [ms with_objs objs]. rewrite nth_error_app2, Nat.sub_diag by lia. reflexivity.
-  - unfold g_inc. cbn [ginc ms with_objs objs]. rewrite skipn_app_exact. cbn [map].
+  - unfold g_inc. cbn [ginc ms with_objs objs]. rewrite skipn_app_exact. cbn [new_ghosts map].
     rewrite Len, app_nth2, Nat.sub_diag by lia. cbn [nth]. unfold ghost_of, orphan_obj; cbn [opid].
     rewrite owner_lookup, L. reflexivity.
-  - unfold g_inc. cbn [ginc ms with_objs objs]. rewrite skipn_app_exact. cbn [map].
+  - unfold g_inc. cbn [ginc ms with_objs objs]. rewrite skipn_app_exact. cbn [new_ghosts map].
     rewrite Len, app_nth2, Nat.sub_diag by lia. cbn [nth]. unfold ghost_of, orphan_obj; cbn [opid].
     rewrite owner_lookup, L. unfold alive. cbn [table]. fold (alive w (-1 - pid)). apply neg_not_alive; auto. lia.
 Qed.
@@ -857,3 +857,60 @@ Lemma race_receiver_own_explicit h o s ks c i :
   In (c, Some i) (effects_of (run h) (ER o s ks)) ->
   i = g_inc (run h) o /\ c = intended (obj_pid (run h) o) s.
 Proof. intros W H -> Hin. eapply race_receiver_own; eauto. Qed.
+
+(* ================================================================ copies: other handles on the same incarnation *)
+Lemma run_snoc h e : run (h ++ [e]) = next (run h) e.
+Proof. unfold run. rewrite run_from_app. reflexivity. Qed.
+
+Lemma wf_snoc_call h c : wf_hist h = true -> wf_hist (h ++ [EC c]) = true.
+Proof.
+  unfold wf_hist. generalize world0. induction h as [|e h IH]; intros w W; cbn [app wf_from] in *; auto.
+  apply andb_true_iff in W as [W1 W2]. rewrite W1. cbn [andb]. apply IH; auto.
+Qed.
+
+Lemma copy_binding h o hw n :
+  wf_hist h = true -> outcome_of (run h) (EC (Copy o hw true)) = Val (RObj n) ->
+  let w' := run (h ++ [EC (Copy o hw true)]) in
+  has_obj w' n = true /\ has_obj (run h) o = true
+  /\ g_inc w' n = g_inc (run h) o /\ obj_pid w' n = obj_pid (run h) o
+  /\ (forall i, alive w' i = alive (run h) i) /\ (forall p, owner w' p = owner (run h) p).
+Proof.
+  intros W. pose proof (run_inv h W) as I. cbn zeta. rewrite run_snoc. set (w := run h) in *.
+  unfold next, outcome_of, has_obj, g_inc, obj_pid. cbn [step]. rewrite cstep_eq. cbn [fst snd mcall ms ginc].
+  destruct (nth_error (objs (ms w)) o) as [x|] eqn:Ex; [|discriminate].
+  destruct (oshot x); [|discriminate]. cbn [fst snd with_objs objs]. intros E. inversion E; subst n.
+  pose proof (Forall2_len _ _ _ (inv_objs _ I)) as Len.
+  assert (L : length (upd_nth o (with_shared x) (objs (ms w))) = length (objs (ms w))) by apply upd_nth_length.
+  assert (Sk : skipn (length (objs (ms w))) (upd_nth o (with_shared x) (objs (ms w)) ++ [with_shared x]) = [with_shared x])
+    by (rewrite <- L; apply skipn_app_exact).
+  rewrite Sk. cbn [new_ghosts map].
+  rewrite nth_error_app2 by lia. rewrite L, Nat.sub_diag. cbn [nth_error].
+  rewrite Len, app_nth2 by lia. rewrite Nat.sub_diag. cbn [nth with_shared opid].
+  splits; auto.
+Qed.
+
+(* a copy of a stale object is stale: not running, and nothing can be sent through it to the new owner of the PID *)
+Lemma copy_of_stale_object h o hw n s :
+  wf_hist h = true -> outcome_of (run h) (EC (Copy o hw true)) = Val (RObj n) ->
+  alive (run h) (g_inc (run h) o) = false ->
+  let w' := run (h ++ [EC (Copy o hw true)]) in
+  outcome_of w' (EC (IsRunning n)) = Val (RBool false)
+  /\ outcome_of w' (EC (EqC n o)) = Val (RBool true)
+  /\ (owner (run h) (obj_pid (run h) o) <> None ->
+      outcome_of w' (EC (Set_ n s)) = Exc NoSuchProcess /\ effects_of w' (EC (Set_ n s)) = []).
+Proof.
+  intros W E A. cbn zeta.
+  destruct (copy_binding h o hw n W E) as (Hn & Ho & Gi & Pi & Al & Ow). cbn zeta in *.
+  pose proof (wf_snoc_call h (Copy o hw true) W) as W'.
+  set (h' := h ++ [EC (Copy o hw true)]) in *.
+  assert (Ho' : has_obj (run h') o = true).
+  { destruct (ginc_stable h [EC (Copy o hw true)] o W' Ho) as (R & _). exact R. }
+  assert (Go' : g_inc (run h') o = g_inc (run h) o).
+  { destruct (ginc_stable h [EC (Copy o hw true)] o W' Ho) as (_ & R & _). exact R. }
+  splits.
+  - rewrite (is_running_answer h' n W' Hn), Gi, Al, A. reflexivity.
+  - rewrite (eq_iff_same_incarnation h' n o W' Hn Ho'), Gi, Go', Z.eqb_refl. reflexivity.
+  - intros Own. apply (no_effect_on_new_owner h' n s W' Hn).
+    + rewrite Gi, Al. exact A.
+    + rewrite Pi, Ow. exact Own.
+Qed.
